@@ -2,7 +2,7 @@
    Only the property theorems, each closed by [exact] of a lemma of Proofs*.v and followed by
    Print Assumptions.  [run h gc_init] is the collector state after an arbitrary history [h] of
    mutator commands (Model.op) from GC:init. *)
-From C10 Require Import Model Proofs Safety Defects Frame Finalize Exit Garbage AllocSafe Abort OpFrame ReallocSafe EveryOp.
+From C10 Require Import Model Proofs Safety Defects Frame Finalize Exit Garbage AllocSafe Abort OpFrame ReallocSafe EveryOp CoStack.
 Local Open Scope Z_scope.
 
 (* the tracked byte count always equals the sum of the registered sizes (as usize) *)
@@ -170,8 +170,8 @@ Print Assumptions C10_no_abort.
 (* the tie facts the proofs above rest on, re-proved from the scraped source on every run *)
 Theorem C10_repaired_code_facts :
   FINALIZE_BIT <> ROOT_BIT /\ AUTO_LEAF_ON_REGISTER = false /\ SCAN_SIZE_TEST = true /\ RESIZE_BEFORE_STEP = true /\
-  (2 <= DESTROY_SWEEPS)%nat.
-Proof. exact (conj FINALIZE_not_ROOT (conj auto_leaf_off (conj scan_size_test_on (conj resize_before_step destroy_resweeps)))). Qed.
+  (2 <= DESTROY_SWEEPS)%nat /\ STACKTOP_RESET_BEFORE_ERROR_RETURN = true.
+Proof. exact (conj FINALIZE_not_ROOT (conj auto_leaf_off (conj scan_size_test_on (conj resize_before_step (conj destroy_resweeps stacktop_reset))))). Qed.
 Print Assumptions C10_repaired_code_facts.
 
 (* ONE frame theorem for every command of every history (all twelve commands; the only exception
@@ -186,3 +186,42 @@ Theorem C10_every_op_safe : forall h o a it, op_moves o = false ->
   (forall e, In e (log (apply_op o (run h gc_init))) -> ev_addr e = a -> In e (log (run h gc_init))).
 Proof. exact every_op_safe. Qed.
 Print Assumptions C10_every_op_safe.
+
+(* ---- the stack clause: "reachable from ... the stack and registers of the main program or of a
+   suspended coroutine" ---- *)
+(* [crun h cinit]: any history of mutator commands (by the main program or a coroutine), main
+   program calls/returns (CPush/CPop), coroutine.resume by whoever runs - accepted or REFUSED -
+   and yields/returns (CBack).  [stacktop] mirrors gc.stacktop as coroutine.resume sets it. *)
+
+(* gc.stacktop is zero whenever the main program runs (also after any refused resume), and names
+   the whole main stack whenever a coroutine runs *)
+Theorem C10_stacktop_discipline : forall h,
+  (chain (crun h cinit) = [] -> stacktop (crun h cinit) = None) /\
+  (chain (crun h cinit) <> [] -> stacktop (crun h cinit) = Some (length (mstack (crun h cinit)))).
+Proof. exact stacktop_discipline. Qed.
+Print Assumptions C10_stacktop_discipline.
+
+(* a block referenced from ANY frame of the main stack (however deep; whether the main program
+   or a coroutine is running) or from the registers survives every command that can run a
+   cycle, untouched, unfreed, unfinalized *)
+Theorem C10_main_stack_kept : forall h o regs a it,
+  has_stk o = true -> op_moves o = false -> ~ op_touches o a ->
+  In a (regs ++ mstack (crun h cinit)) -> lookup a (items (cg (crun h cinit))) = Some it ->
+  lookup a (items (cg (capply (CMut o regs) (crun h cinit)))) = Some it /\
+  (forall e, In e (log (cg (capply (CMut o regs) (crun h cinit)))) -> ev_addr e = a -> In e (log (cg (crun h cinit)))).
+Proof. exact main_stack_kept. Qed.
+Print Assumptions C10_main_stack_kept.
+
+(* the stack of a suspended or running coroutine lies inside the coroutine object, a registered
+   scannable block (coroutine.create registers it with its full size): whatever is referenced
+   from that memory survives every cycle as long as the coroutine object itself is reachable
+   (from a main-stack frame, the registers, a root region or another reachable block) *)
+Theorem C10_coroutine_stack_kept : forall h o regs c itc b itb,
+  has_stk o = true -> op_moves o = false -> ~ op_touches o b ->
+  reach (items (cg (crun h cinit))) (mark_seeds (scanned (crun h cinit) regs) (cg (crun h cinit))) c ->
+  lookup c (items (cg (crun h cinit))) = Some itc -> noscan itc = false -> In b (iwords itc) ->
+  lookup b (items (cg (crun h cinit))) = Some itb ->
+  lookup b (items (cg (capply (CMut o regs) (crun h cinit)))) = Some itb /\
+  (forall e, In e (log (cg (capply (CMut o regs) (crun h cinit)))) -> ev_addr e = b -> In e (log (cg (crun h cinit)))).
+Proof. exact coroutine_stack_kept. Qed.
+Print Assumptions C10_coroutine_stack_kept.
